@@ -672,7 +672,13 @@ def MState.step (st : MState) (w : List String) : MState × List String :=
         match events.idxOf? (addrOf id) with
         | some k =>
           let stale := ((events.take (k + 1) ++ started).filterMap idOfAddr).eraseDups
-          ({ st with stale, nCollect := st.nCollect + 1 }, [s!"O xr raised marked={setText stale}"])
+          -- the set of bits that stay does not depend on the order in which containers and the registry are enumerated iff the probe is
+          -- first reached as a root word itself, after everything before it has been traced completely: only then is it printed
+          let det : Bool := match (ts.map fun t => t == some (Tok.obj id)).idxOf? true with
+            | some j => !((st.markedIds false ((ts.take j).filterMap (·.map tokWord))).1.contains id)
+            | none => false
+          ({ st with stale, nCollect := st.nCollect + 1 },
+           [if det then s!"O xr raised marked={setText stale}" else "O xr raised marked=*"])
         | none => st.exactCollect words "xr completed"
       | none => bad st
     | none => bad st
